@@ -2,6 +2,8 @@
 
 package hashgraph
 
+import "github.com/mosaicnetworks/babble/src/peers"
+
 // Read-only accessors used by the verification harness (build tag verif).
 
 // VerifRound returns the stored round of the event or nil.
@@ -72,3 +74,37 @@ func (h *Hashgraph) VerifWitness(x string) (bool, error) { return h.witness(x) }
 
 // VerifRoundOf exposes the memoised round function.
 func (h *Hashgraph) VerifRoundOf(x string) (int, error) { return h.round(x) }
+
+// Database-level reads of a BadgerStore (bypassing the in-memory caches).
+
+// VerifDBGetEvent reads an event from the database.
+func (s *BadgerStore) VerifDBGetEvent(key string) (*Event, error) { return s.dbGetEvent(key) }
+
+// VerifDBGetBlock reads a block from the database.
+func (s *BadgerStore) VerifDBGetBlock(index int) (*Block, error) { return s.dbGetBlock(index) }
+
+// VerifDBGetRound reads a round from the database.
+func (s *BadgerStore) VerifDBGetRound(index int) (*RoundInfo, error) { return s.dbGetRound(index) }
+
+// VerifDBGetFrame reads a frame from the database.
+func (s *BadgerStore) VerifDBGetFrame(index int) (*Frame, error) { return s.dbGetFrame(index) }
+
+// VerifDBGetPeerSet reads a peer-set from the database.
+func (s *BadgerStore) VerifDBGetPeerSet(round int) (*peers.PeerSet, error) {
+	return s.dbGetPeerSet(round)
+}
+
+// VerifDBGetRoot reads a root from the database.
+func (s *BadgerStore) VerifDBGetRoot(participant string) (*Root, error) {
+	return s.dbGetRoot(participant)
+}
+
+// VerifDBParticipantEvents lists a participant's events from the database.
+func (s *BadgerStore) VerifDBParticipantEvents(participant string, skip int) ([]string, error) {
+	return s.dbParticipantEvents(participant, skip)
+}
+
+// VerifDBGetRepertoire reads the repertoire from the database.
+func (s *BadgerStore) VerifDBGetRepertoire() (map[string]*peers.Peer, error) {
+	return s.dbGetRepertoire()
+}
